@@ -233,8 +233,8 @@ pub fn shard_run(tier: &str, seed: u64, replay_case: Option<usize>, shard: Shard
                     // lazily create the target
                     if target.is_none() {
                         let t = match path {
-                            PathKind::Lib(b) => Subject::new(Kind { backend: *b, entry: Entry::Lib, reopen_pct: 0, socket: false, peers: false }, Config::default()).map(Target::Subj).map_err(|e| format!("{e:#}")),
-                            PathKind::Http(b) => Subject::new(Kind { backend: *b, entry: Entry::Http, reopen_pct: 0, socket: false, peers: false }, Config::default()).map(Target::Subj).map_err(|e| format!("{e:#}")),
+                            PathKind::Lib(b) => Subject::new(Kind { backend: *b, entry: Entry::Lib, reopen_pct: 0, socket: false, peers: false, pinned_first: false }, Config::default()).map(Target::Subj).map_err(|e| format!("{e:#}")),
+                            PathKind::Http(b) => Subject::new(Kind { backend: *b, entry: Entry::Http, reopen_pct: 0, socket: false, peers: false, pinned_first: false }, Config::default()).map(Target::Subj).map_err(|e| format!("{e:#}")),
                             PathKind::SocketMem => {
                                 let web = WebServer::new(Config::default().to_server(), None, InMemoryStorage::new());
                                 SockServer::start(web, 2).map(|s| {
